@@ -77,6 +77,9 @@ func (w *world) apply(op Op) (r resolved, v *simcore.Violation) {
 	headerAhead := bc.CurrentHeader().Number.Uint64() > bc.CurrentBlock().Number.Uint64()
 	rebase := false
 	preKnown := map[int]bool{} // insert: blocks of the segment that were stored before the call
+	preState := map[int]bool{} // ... and had their state available
+	firstCanonPruned := false  // insert: the first block was canonical before the call and its state was not available
+	canonBefore := w.canonHashes()
 	note := func(format string, a ...any) {
 		r.desc = fmt.Sprintf(format, a...)
 	}
@@ -146,8 +149,10 @@ func (w *world) apply(op Op) (r resolved, v *simcore.Violation) {
 		for _, n := range seg {
 			if w.known(n) {
 				preKnown[n.idx] = true
+				preState[n.idx] = bc.HasState(n.block.Root())
 			}
 		}
+		firstCanonPruned = preKnown[seg[0].idx] && !preState[seg[0].idx] && int(seg[0].depth) < len(canonBefore) && canonBefore[seg[0].depth] == seg[0].block.Hash()
 		before := w.indexFingerprint()
 		var (
 			n   int
@@ -181,6 +186,14 @@ func (w *world) apply(op Op) (r resolved, v *simcore.Violation) {
 			// stops at the first block that is not "pruned ancestor" and drops the rest)
 			w.res.Probe("insert-nil-but-not-imported")
 			w.silentDrop = true
+		}
+		if !refuse && err == nil {
+			for _, n := range seg {
+				if w.known(n) && !rawdb.HasReceipts(w.db, n.block.Hash(), n.depth) {
+					// stored by insertSideChain without execution
+					w.unexecuted[n.idx] = true
+				}
+			}
 		}
 	case "setcanon":
 		var cands []int
@@ -357,27 +370,36 @@ func (w *world) apply(op Op) (r resolved, v *simcore.Violation) {
 	if v = guard("invariants", func() *simcore.Violation { return w.invariants(evs, headBefore, rebase) }); v != nil {
 		// findings on the unchanged tree get their own keys (see NOTES.md)
 		switch {
-		case v.Oracle == "head-state-missing" && op.Kind == "insert" && len(r.blocks) > 0 && preKnown[r.blocks[0]] && w.knobs.Scheme == rawdb.PathScheme && w.bc.CurrentBlock().Hash() == headBefore:
+		case v.Oracle == "head-state-missing" && op.Kind == "insert" && firstCanonPruned && w.knobs.Scheme == rawdb.PathScheme && w.bc.CurrentBlock().Hash() == headBefore &&
+			w.diskLayerRolledBackInto(r.blocks):
+			// the batch started with an already-canonical block whose state was below the disk
+			// layer; the head did not move, all diff layers are gone and the disk layer now sits
+			// at (an ancestor of) a block of the batch: insertSideChain rolled the persistent
+			// state back although there was nothing to import
 			v.Key = "head-state-missing:reinsert-known-canonical-block-rolls-state-back"
-		case v.Oracle == "canon-above-head" && op.Kind == "insert" && len(r.blocks) > 0 && preKnown[r.blocks[0]] && w.belowFrozen():
+		case v.Oracle == "canon-above-head" && op.Kind == "insert" && firstCanonPruned && w.belowFrozen():
 			// InsertChain of already-canonical blocks whose state is pruned re-executes their
 			// ancestors with setHead and leaves the head at the last re-executed block: below
 			// blocks that are already frozen (and possibly finalized)
 			v.Key = "canon-above-head:reimport-of-pruned-canonical-blocks-rewinds-head-below-frozen"
-		case v.Oracle == "canon-above-head" && headerAhead && op.Kind != "sethead":
+		case v.Oracle == "canon-above-head" && headerAhead && op.Kind != "sethead" && w.aboveIsLeftover(canonBefore):
 			// the header head was above the block head (SetHead / repair left it there);
-			// writeHeadBlock then moves the header head down without touching the index above
+			// writeHeadBlock then moves the header head down without touching the index above:
+			// every entry above the head is an entry of the old header chain
 			v.Key = "canon-above-head:header-head-was-ahead-of-block-head"
-		case (v.Oracle == "canon-receipts-missing" || v.Oracle == "logs-never-announced") && w.silentDrop && w.knobs.Scheme == rawdb.HashScheme:
-			// side-chain blocks stored without execution became canonical because a state
-			// with their root was already on disk (left by an earlier commit)
-			v.Key = v.Oracle + ":unexecuted-sidechain-block-canonicalised"
 		case v.Oracle == "head-state-incomplete" && w.knobs.Scheme == rawdb.PathScheme && strings.Contains(v.Msg, "layer stale"):
-			// pathdb keeps diff layers whose parent was flattened away (siblings of the
-			// layer above the new disk layer): HasState says yes, reads fail
+			// recorded as fixed by 5b767e1369 (layerTree.cap re-links the children of the
+			// flattened layer): fires only on a regression
 			v.Key = "head-state-incomplete:pathdb-dangling-sibling-layer-stale"
-		case v.Oracle == "logs-never-announced" && op.Kind == "insert" && subset(w.missLogBlocks, preKnown):
-			// every unannounced log belongs to a block that was stored before the call
+		case v.Oracle == "canon-receipts-missing" && w.knobs.Scheme == rawdb.HashScheme && w.unexecuted[w.badBlock]:
+			// a side-chain block stored without execution became canonical because a state
+			// with its root was already on disk (left by an earlier commit)
+			v.Key = "canon-receipts-missing:unexecuted-sidechain-block-canonicalised"
+		case v.Oracle == "logs-never-announced" && w.knobs.Scheme == rawdb.HashScheme && subset(w.missLogBlocks, w.unexecuted):
+			v.Key = "logs-never-announced:unexecuted-sidechain-block-canonicalised"
+		case v.Oracle == "logs-never-announced" && op.Kind == "insert" && subset(w.missLogBlocks, preState):
+			// every unannounced log belongs to a block that was stored with its state before the
+			// call (writeKnownBlock path)
 			v.Key = "logs-never-announced:known-block-made-head-again"
 		case v.Oracle == "added-log-twice" && w.dupLogBlock != -2 && t.isAncestorOrSelf(w.dupLogBlock, t.nodeOf(headBefore)):
 			// the re-announced block was canonical before the operation and still is
@@ -419,6 +441,55 @@ func (w *world) apply(op Op) (r resolved, v *simcore.Violation) {
 	return r, nil
 }
 
+// canonHashes reads the canonical number->hash index (0 .. highest tree number + 2).
+func (w *world) canonHashes() []common.Hash {
+	out := make([]common.Hash, w.tree.maxNum+3)
+	for n := range out {
+		out[n] = rawdb.ReadCanonicalHash(w.db, uint64(n))
+	}
+	return out
+}
+
+// aboveIsLeftover: every canonical entry above the header head was there, unchanged,
+// before the operation.
+func (w *world) aboveIsLeftover(before []common.Hash) bool {
+	hdr := w.bc.CurrentHeader().Number.Uint64()
+	found := false
+	for n := hdr + 1; n < uint64(len(before)); n++ {
+		h := rawdb.ReadCanonicalHash(w.db, n)
+		if h == (common.Hash{}) {
+			continue
+		}
+		if h != before[n] {
+			return false
+		}
+		found = true
+	}
+	return found
+}
+
+// diskLayerRolledBackInto: pathdb holds a single layer whose root is the state of
+// the parent of the batch's first block or of one of the batch's blocks.
+func (w *world) diskLayerRolledBackInto(blocks []int) bool {
+	p := w.bc.TrieDB().VerifChainsimPathDB()
+	if p == nil || len(blocks) == 0 {
+		return false
+	}
+	root, layers := p.VerifChainsimBase()
+	if layers != 1 {
+		return false
+	}
+	if common.Hash(root) == w.tree.blockOf(w.tree.nodes[blocks[0]].parent).Root() {
+		return true
+	}
+	for _, b := range blocks {
+		if common.Hash(root) == w.tree.nodes[b].block.Root() {
+			return true
+		}
+	}
+	return false
+}
+
 func (w *world) belowFrozen() bool {
 	frozen, _ := w.db.Ancients()
 	return w.bc.CurrentHeader().Number.Uint64()+1 < frozen
@@ -451,5 +522,4 @@ func (w *world) indexFingerprint() uint64 {
 	return uint64(h)
 }
 
-var _ = common.Hash{}
 var _ types.Blocks
